@@ -224,6 +224,83 @@ class FileBorrowers(object):
             shutil.rmtree(d, ignore_errors=True)
 
 
+class BorrowedSpellings(object):
+    name = 'copies-found-under-another-spelling'
+    describe = ('the real compile() with a PyFileBorrower / AnyFileBorrower over a FileReader directory: the module Foo-Mib (source '
+                'unparsable) has a copy stored as Foo-Mib / FOO-MIB / foo-mib <ext> (reader matching options on / off): when a copy is '
+                'served it is written verbatim under the MODULE name asked for, the status is borrowed; a file that is the copy of '
+                'another module (Foo, Foo-Mib-MIB: the fuzzy spellings) is never taken')
+
+    STEMS = ['Foo-Mib', 'FOO-MIB', 'foo-mib', 'Foo', 'Foo-Mib-MIB', 'FOO', 'foo-mib-mib']
+
+    def blocks(self, tier):
+        return [{'b': b} for b in ('py', 'json')]
+
+    def cases(self, block, tier):
+        for stem in range(len(self.STEMS)):
+            for lower in (False, True):
+                for upper in (False, True):
+                    for fuzzy in (None, True):
+                        yield {'b': block['b'], 'stem': stem, 'lower': lower, 'upper': upper, 'fuzzy': fuzzy}
+
+    def run_case(self, case):
+        from pysmi.borrower.pyfile import PyFileBorrower
+        from pysmi.borrower.anyfile import AnyFileBorrower
+        from pysmi.reader.localfile import FileReader
+        from mc import env
+        base = os.environ.get('VERIF_TMP') or ('/dev/shm' if os.path.isdir('/dev/shm') else None)
+        d = tempfile.mkdtemp(prefix='mcC19s', dir=base)
+        try:
+            ext = '.py' if case['b'] == 'py' else '.json'
+            stem = self.STEMS[case['stem']]
+            copy = payload(ext) + ' stored as ' + stem
+            with open(os.path.join(d, stem + ext), 'wb') as f:
+                f.write(copy.encode('utf-8'))
+            opts = {'lowcaseMatching': case['lower'], 'uppercaseMatching': case['upper']}
+            if case['fuzzy'] is not None:
+                opts['fuzzyMatching'] = case['fuzzy']    # the READER may be told to match loosely: that is for MIB file names
+            reader = FileReader(d).setOptions(**opts)
+            b = PyFileBorrower(reader) if case['b'] == 'py' else AnyFileBorrower(reader).setOptions(exts=['.json'])
+            written = []
+
+            class W(object):
+                def setOptions(self, **kw):
+                    return self
+
+                def putData(self, name, data, comments=(), dryRun=False):
+                    written.append((name, data))
+
+                def getData(self, name):
+                    return ''
+            comp = env.MibCompiler(env.fresh_parser('smiV2'), env.make_codegen('json' if case['b'] == 'json' else 'pysnmp'), W())
+            texts = env.base_texts()
+            texts['Foo-Mib'] = 'Foo-Mib DEFINITIONS ::= BEGIN this does not parse END\n'
+            comp.addSources(env.DictReader(texts))
+            comp.addSearchers(env.StubSearcher(*env.BASE_NAMES))
+            comp.addBorrowers(b)
+            try:
+                res = comp.compile('Foo-Mib')
+            except Exception as exc:
+                return 'escaped', [('C19|spellings|%s|exception-escapes|%s' % (case['b'], type(exc).__name__), repr(case))], 1
+            st = str(res.get('Foo-Mib'))
+            # which spellings of the NAME may answer for the module Foo-Mib: the name as given, and its upper / lower case form
+            # when the reader matches those; never another module's name
+            ok_stems = ['Foo-Mib'] + (['FOO-MIB'] if case['upper'] else []) + (['foo-mib'] if case['lower'] else [])
+            vs = []
+            sig = 'C19|spellings|%s|%s%s' % (case['b'], stem, '|fuzzy-reader' if case['fuzzy'] else '')
+            if stem in ok_stems:
+                if st != 'borrowed' or written != [('Foo-Mib', copy)]:
+                    vs.append(('%s|copy-not-stored-under-the-module-name' % sig, 'status %s, written %r\ncase %r' % (
+                        st, [(n, t[:40]) for n, t in written], case)))
+            else:
+                if st == 'borrowed' or written:
+                    vs.append(('%s|copy-of-another-module-taken' % sig, 'status %s, written %r\ncase %r' % (
+                        st, [(n, t[:40]) for n, t in written], case)))
+            return '%s:%r' % (st, [n for n, t in written]), vs, 1
+        finally:
+            shutil.rmtree(d, ignore_errors=True)
+
+
 class SeveralPerFile(C07.SeveralPerFile):
     """C07's worlds of multi-module files over two sources, with a borrower that holds one of the modules: a module for which a
     sound copy is found (later in the same file, in its own file, at a later source) is compiled, never borrowed; the broken
@@ -234,4 +311,4 @@ class SeveralPerFile(C07.SeveralPerFile):
         return bool(world.get('borrowers'))
 
 
-FAMILIES = [BorrowerLists(), FileBorrowers(), CopyAges(), RequestedByModuleName(), SeveralPerFile()]
+FAMILIES = [BorrowerLists(), FileBorrowers(), CopyAges(), RequestedByModuleName(), BorrowedSpellings(), SeveralPerFile()]
